@@ -14,10 +14,10 @@ Record observation := mkObs {
   ob_misc : list str }.               (* other stderr lines (RUNFILE messages) *)
 
 Definition root_id : N := 1%N.
-Definition global_ctx : ctx := mkCtx None (str_of_string "Program") [] [] [] [] [] false false dt_none None None.
+Definition global_ctx : ctx := mkCtx None (str_of_string "Program") [] [] [] [] [] false false dt_none None None O.
 
 Definition init_state (stdin : str) (fs : list (str * str)) (rnd : list Z) : st :=
-  mkSt 2%N [] [] [(root_id, global_ctx)] [] [] [] stdin fs [] 0 0 0 rnd.
+  mkSt 2%N nm_empty nm_empty (nm_put root_id global_ctx nm_empty) [] [] [] stdin fs [] 0 0 0 rnd.
 
 Definition warning_text (w : Z * Z) : str :=
   str_of_string "Warning on line " ++ z_to_str (fst w) ++ str_of_string " column " ++ z_to_str (snd w)
